@@ -295,6 +295,13 @@ add(Gram("cr", Level([Cmds([Cmd(["7"], _c8_seven)], alt=Pos("many"), alt_tag=lam
          short_flags="z", note="top-level choice [repeated positional | command `7`]: the positional branch is listed first and could swallow the command name"))
 C01_GRAMMARS.append("cr")
 
+_ka = [Named("switch", "v", ["verbose"]), Named("req_flag", "r", ["rect"], present=()), Named("arg", "w", ["width"], arity="req"),
+       Named("switch", "f", ["fill"]), Named("arg", "o", ["output"], arity="opt")]
+for _f in _ka[1:4]:
+    _f.in_adjacent = True
+add(Gram("ka", Level(_ka), short_flags="vrf", short_args="wo",
+         note="adjacent option-struct `--rect --width W [--fill]` (W has a user completer) between a switch and an argument (names-only Level: used by C14)"))
+
 add(Gram("k5", None, short_flags="rs", short_args="w", names=("rsw", ["rect", "sw", "width"], []), note="switch, then optional adjacent group (flag + argument), then optional positional"))
 
 _hd_secret = Named("switch", "s", ["secret"])
